@@ -334,6 +334,11 @@ def record(ctx, leg, sub, opts, runs, first=0, timeout=3000):
     if rc != 0:
         raise common.Infra("%s failed: %s" % (sub, err[-2000:]))
     st = js["stats"]
+    for h in st.get("commands_never_answered") or []:
+        ctx.notes.append("observation (not part of C02): the server never answered %s; the run was cut there" % h[:600])
+        ctx.log("observation: no reply within the patience: %s" % h[:300])
+    if len(st.get("commands_never_answered") or []) > max(1, runs // 10):
+        raise common.Infra("%s: %d runs cut short by commands that were never answered" % (leg, len(st["commands_never_answered"])))
     ctx.log("%s: %d runs, %d events, %d queries (%d with matches, %d matches), %d predicate evaluations, up to %d objects alive"
             % (leg, st["runs"], js["events"], st["queries"], st["queries_with_matches"], st["matches_total"], st["test_commands"],
                st["max_objects_alive"]))
@@ -447,27 +452,27 @@ def run_legs(ctx):
     r, beh1, areas1, k = gen_bfs(ctx, "cover1", 1, n1, n1, 4)
     states += r["distinct"]
     trans += k
-    acc.add(*replay(ctx, beh1, areas1, "cover1", extra=["-fillers", str(ctx.pick(40, 100))]))
+    acc.add(*replay(ctx, beh1, areas1, "cover1", extra=["-fillers", str(ctx.pick(40, 40))]))
     if not ctx.quick:
         r, beh1b, areas1b, k = gen_bfs(ctx, "cover1b", 1, 2, 2, 4)
         states += r["distinct"]
         trans += k
-        acc.add(*replay(ctx, beh1b, areas1b, "cover1-all-embeddings", extra=["-fillers", "50", "-all-embeddings"]))
+        acc.add(*replay(ctx, beh1b, areas1b, "cover1-all-embeddings", extra=["-fillers", "20", "-all-embeddings"]))
         os.remove(beh1b)
     # 2b. two ids: interplay of two entries (one moves, is overwritten, deleted while the other stays)
     nx, ny = ctx.pick((1, 1), (2, 1))
     r, beh2, areas2, k = gen_bfs(ctx, "cover2", 2, nx, ny, 7, withkeys=not ctx.quick)
     states += r["distinct"]
     trans += k
-    acc.add(*replay(ctx, beh2, areas2, "cover2", extra=["-fillers", str(ctx.pick(0, 40)), "-clip-pairs", "8", "-sparse", "4"]))
+    acc.add(*replay(ctx, beh2, areas2, "cover2", extra=["-fillers", str(ctx.pick(0, 10)), "-clip-pairs", "8", "-sparse", "4"]))
     os.remove(beh2)
     # 2c. random long behaviours on a finer grid with more ids, heavy churn, big filler populations
-    sims = ctx.pick([(3, 3, 80, 12)], [(4, 3, 400, 16), (3, 4, 100, 12)])
+    sims = ctx.pick([(3, 3, 80, 12)], [(4, 3, 250, 14), (3, 4, 100, 12)])
     for si, (nids, n, num, depth) in enumerate(sims):
         r, beh, areas, k = gen_sim(ctx, "sim%d" % si, nids, n, num, depth)
         states += r["generated"]
         trans += r["generated"]
-        acc.add(*replay(ctx, beh, areas, "sim%d" % si, extra=["-fillers", str(ctx.pick(1200, 3000)), "-big-every", str(ctx.pick(8, 25)),
+        acc.add(*replay(ctx, beh, areas, "sim%d" % si, extra=["-fillers", str(ctx.pick(1200, 2000)), "-big-every", str(ctx.pick(8, 25)),
                                                                "-big", str(ctx.pick(6000, 100000)), "-clip-pairs", "30", "-sparse", "10"]))
         os.remove(beh)
     # self-test of the binding
